@@ -153,7 +153,7 @@ def _run_chunk(module, idxs, jobs, results, asan, tag, chunk_id, timeout, varian
       break
     full = report + '\n' + err[-4000:]
     kind, frame = classify(full)
-    if rc == -999:
+    if rc == -999 and kind == 'unknown':
       kind = 'timeout'
     results[bad] = dict(ok=False, rc=rc, report=report[:8000], kind=kind, frame=frame, stderr=err[-3000:],
                         journal=journal)
